@@ -72,6 +72,8 @@ def main(tier):
             run.fail_closed("eval_i64 not present")
         return run.finish("census + arm table", "./check C06 --tier %s" % tier)
     m = models["eval_i64"]
+    from ..canary import i64_canary
+    i64_canary(run)
     # a. census, both configurations, must agree
     cen_on, nf = typed_census(run, F, "ovf-on")
     try:
